@@ -259,7 +259,7 @@ func (m *module) typeIDOf(id uint32) uint32 {
 	return d.Type
 }
 
-// constU32 returns the value of an integer scalar OpConstant (not spec constant) of width <= 32... or 64 if the high word is 0.
+// constValue returns the value of an integer scalar OpConstant / OpConstantNull (never a specialization constant).
 func (m *module) constValue(id uint32) (uint64, bool) {
 	d := m.defs[id]
 	if d == nil {
@@ -476,10 +476,6 @@ func makeType(in *Inst) *Type {
 
 // ---- type helper predicates ----
 
-func (m *module) isIntScalar(t *Type) bool   { return t != nil && t.Kind == tkInt }
-func (m *module) isFloatScalar(t *Type) bool { return t != nil && t.Kind == tkFloat }
-func (m *module) isBoolScalar(t *Type) bool  { return t != nil && t.Kind == tkBool }
-
 // scalarOf returns the component type of a scalar or vector type (nil otherwise) and the component count.
 func (m *module) scalarOf(t *Type) (*Type, uint32) {
 	if t == nil {
@@ -499,19 +495,6 @@ func (m *module) scalarOf(t *Type) (*Type, uint32) {
 		}
 	}
 	return nil, 0
-}
-
-func (m *module) isIntSV(t *Type) bool {
-	s, _ := m.scalarOf(t)
-	return s != nil && s.Kind == tkInt
-}
-func (m *module) isFloatSV(t *Type) bool {
-	s, _ := m.scalarOf(t)
-	return s != nil && s.Kind == tkFloat
-}
-func (m *module) isBoolSV(t *Type) bool {
-	s, _ := m.scalarOf(t)
-	return s != nil && s.Kind == tkBool
 }
 
 func (m *module) typeName(id uint32) string { return m.typeNameD(id, 0) }
